@@ -1191,6 +1191,19 @@ MUTANTS = [
                             &mut *write_tx,
                         )""",
          expect="C01."),
+    dict(id="C03.i-recompute-decided-before-the-callee-is-repaired", prop="C03", file=CG + "repair.rs",
+         old="        let kind = engine.get_query_kind(callee).await;\n\n        // NOTE: if the callee is an input",
+         new="""        let kind = engine.get_query_kind(callee).await;
+
+        {
+            let stored = unsafe { engine.get_node_info_unchecked(callee).await };
+            if stored.value_fingerprint() != observation.seen_value_fingerprint {
+                return CalleeCheckDecision::Recompute;
+            }
+        }
+
+        // NOTE: if the callee is an input""",
+         expect="C03.i/check_callee/cleaned-requires-equal-fingerprint"),
     # ------------------------------------------------------------------ C09.f (D5)
     dict(id="C09.f-D5-fold-heap-in-arbitrary-order", prop="C09", file=ST + "key_of_set_map/cache.rs",
          old="""        let mut ordered = log.iter().collect::<Vec<_>>();
